@@ -98,7 +98,7 @@ def _try_wrap(e, proto):
     return w
 
 
-def _rewrite_returns(body, try_proto, db=None):
+def _rewrite_returns(body, try_proto, db=None, fn_tail=False):
     """see module docstring; closures keep their own returns"""
     def tail(n):
         """rewrite the value position of n; returns the replacement node"""
@@ -153,12 +153,41 @@ def _rewrite_returns(body, try_proto, db=None):
         for v in list(n.values()):
             if isinstance(v, (dict, list)):
                 rets(v)
+    if fn_tail and try_proto is None:
+        return body          # the helper's result IS the caller's result: its `return`s are the caller's returns
     rets(body)
     return tail(body)
 
 
-def _expand(db, f, root, depth, stack, counter, keep=()):
+def _fn_tails(root):
+    out = set()
+
+    def go(n):
+        n = peel(n)
+        if not isinstance(n, dict):
+            return
+        out.add(id(n))
+        k = n.get("k")
+        if k == "Block" and "expr" in n:
+            go(n["expr"])
+        elif k == "If":
+            go(n["then"])
+            if "else" in n:
+                go(n["else"])
+        elif k == "Match" and n.get("src") not in ("TryDesugar", "ForLoopDesugar"):
+            for a in n["arms"]:
+                go(a["body"])
+    go(root)
+    for n, ps in walk(root):
+        if n.get("k") == "Ret" and "e" in n and not any(p.get("k") == "Closure" for p in ps):
+            go(n["e"])
+    return out
+
+
+def _expand(db, f, root, depth, stack, counter, keep=(), tails=None):
     """replace eligible calls under root (in place); returns root (possibly replaced)"""
+    if tails is None:
+        tails = _fn_tails(root)
     def visit(n, parent, key, idx, try_parent):
         if isinstance(n, list):
             for i, x in enumerate(n):
@@ -193,7 +222,7 @@ def _expand(db, f, root, depth, stack, counter, keep=()):
         tag = "i%d" % counter[0]
         body = copy.deepcopy(g.info.get("hir_orig") or g.hir)
         _rename(body, tag)
-        body = _rewrite_returns(body, try_node, db)
+        body = _rewrite_returns(body, try_node, db, fn_tail=(try_node is None and id(call) in tails))
         stmts = []
         for p, a in zip(params, args):
             pp = copy.deepcopy(p)
@@ -205,7 +234,7 @@ def _expand(db, f, root, depth, stack, counter, keep=()):
         # arguments may themselves contain calls to expand; so may the copied body (one level less)
         for s_ in stmts:
             visit(s_["init"], s_, "init", None, None)
-        nb = _expand(db, g, body, depth - 1, stack | {g.key}, counter, keep)
+        nb = _expand(db, g, body, depth - 1, stack | {g.key}, counter, keep, tails=(_fn_tails(body) if (try_node is None and id(call) in tails) else set()))
         blk["expr"] = nb
         target = try_node if try_node is not None else call
         if isinstance(parent, list):
